@@ -6,7 +6,7 @@ const char *ntC05 = "non-trivial = history with a declaration (declp/decla/pcol/
 namespace {
 struct L05 : Listener {
     CaseResult &r; size_t checks = 0; bool declAfterData = false, editAfterReload = false, rateAfterFrames = false, reloaded = false;
-    bool extendOnEmpty = false, permSubmitted = false;
+    bool extendOnEmpty = false, permSubmitted = false, named = true;
     std::set<size_t> gaps;      // frames left empty by an indexed add beyond the end (not 'filled' frames)
     size_t preFrames = 0;
     explicit L05(CaseResult &rr) : r(rr) {}
@@ -26,7 +26,13 @@ struct L05 : Listener {
         }
         Snap s = takeSnap(in.o());
         ++checks;
-        std::string m = checkAgreement(s, true, &gaps);
+        if (op.code == "load" && !o.threw) {
+            // a loaded file may hold fewer or more labels than points in use (vendor layout): the per-entry label clauses of C05 speak of
+            // points and channels "declared by name" and do not apply to such an object
+            Shape sh = shapeOf(in.o());
+            if (sh.plabels.size() != sh.nP || sh.alabels.size() != sh.nC) named = false;
+        }
+        std::string m = checkAgreement(s, named, &gaps);
         if (!m.empty()) {
             r.fail("after op " + std::to_string(i) + " (" + op.code + (o.threw ? ", refused with " + o.cls : "") + "): " + m);
             if (extendOnEmpty) r.knownFinding = "KF-D20";
